@@ -78,8 +78,14 @@ func findHPA(cli client.Client, object client.Object, version string) *unstructu
 		if err != nil || !found {
 			continue
 		}
-		ref := scaleTargetRef.(map[string]interface{})
-		name, version, kind := ref["name"].(string), ref["apiVersion"].(string), ref["kind"].(string)
+		ref, ok := scaleTargetRef.(map[string]interface{})
+		if !ok {
+			continue
+		}
+		// apiVersion is optional in scaleTargetRef, and this loop sees every HPA of the namespace
+		name, _ := ref["name"].(string)
+		version, _ := ref["apiVersion"].(string)
+		kind, _ := ref["kind"].(string)
 		if version == object.GetObjectKind().GroupVersionKind().GroupVersion().String() &&
 			kind == object.GetObjectKind().GroupVersionKind().Kind &&
 			removeSuffix(name) == object.GetName() {
